@@ -138,7 +138,7 @@ R("C13", "c13_verify_rln_proof_nopanic_304", "thorough", "arbitrary bytes, every
 R("C13", "c13_verify_with_roots_nopanic_304", "thorough", "arbitrary bytes, every length 0..=304; roots 0..=70", [PUB + "verify_with_roots"], mem=16, tmo=3000)
 R("C02", "c02_verify_logic", "quick", "288-byte message, arbitrary content", [PUB + "verify", "rln::protocol::deserialize_proof_values"])
 R("C02", "c02_verify_rln_proof_logic", "quick", "300-byte message, arbitrary content (signal <= 4 bytes, declared length any 64-bit value), verifier tree = depth-0 tree holding an arbitrary leaf", [PUB + "verify_rln_proof"], mem=14)
-R("C02", "c02_verify_with_roots_logic_1root", "quick", "300-byte message; root buffer of length 0/31/32/40 (empty set, fragment, one root, one root + fragment)", [PUB + "verify_with_roots"], mem=14, tmo=3000)
+R("C02", "c02_verify_with_roots_logic_1root", "thorough", "300-byte message; root buffer of length 0/31/32/40 (empty set, fragment, one root, one root + fragment)", [PUB + "verify_with_roots"], mem=14, tmo=3000)
 R("C02", "c02_verify_with_roots_logic", "thorough", "300-byte message; root buffer of length 0/31/32/40/64/70 (up to two roots)", [PUB + "verify_with_roots"], mem=16, tmo=3600)
 
 # ------------------------------------------------------------------------------------------------
